@@ -41,8 +41,11 @@ type Op struct {
 	// group: one plain notification with several updates below Prefix.
 	Ups []Up `json:"ups,omitempty"`
 	// fill: N leaves fill/e[id=i]/v = "f<Ver>.<i>", 250 per notification; wait: N milliseconds; await: which pause (1-based)
-	N   int `json:"n,omitempty"`
-	Ver int `json:"ver,omitempty"`
+	// Bulk>0 (fill): Bulk leaves per notification instead of 250 - a device that dumps a whole table in ONE SubscribeResponse
+	// (and does so again whenever it is subscribed to again)
+	N    int `json:"n,omitempty"`
+	Ver  int `json:"ver,omitempty"`
+	Bulk int `json:"bulk,omitempty"`
 	// break: the target's stream ends - Via "error" (the RPC returns a status), "conn" (the transport is closed),
 	// "rpc" (the collector is asked to reconnect through its Collector service), "silence" (the target - configured
 	// with a receive timeout - sends nothing, heartbeats included, until the collector itself gives the stream up).
@@ -62,12 +65,27 @@ type Op struct {
 	MaxMs int    `json:"max_ms,omitempty"`
 }
 
+// Addr is one line of a target's configured `addresses`.
+type Addr struct {
+	// Kind: "live" - the address of the scripted server the target lives on; otherwise an address nobody answers gNMI on:
+	// "refused" (nothing listens: the connection is refused), "silent" (TCP connections are accepted and never spoken to),
+	// "closing" (accepted and closed at once), "plaintext" (a service that answers without TLS), "tlsfail" (a TLS endpoint that
+	// aborts every handshake).
+	Kind string `json:"kind"`
+	// Inst: which dead endpoint of that kind (0, 1): the same endpoint may be listed twice, and by several targets
+	Inst int `json:"inst,omitempty"`
+	// Chain: the rest of an address chain ("first;next;..."): the collector connects to the first element (a proxy would be told the rest)
+	Chain string `json:"chain,omitempty"`
+}
+
 // Target is one configured target and its stream.
 type Target struct {
 	Name    string `json:"name"`
 	Server  int    `json:"server"`  // which scripted server address it lives on
 	Request int    `json:"request"` // which request of the configuration it references
 	Ops     []Op   `json:"ops"`
+	// Addrs (none: the live address alone): the addresses the target is configured with, in this order; "live" occurs at least once.
+	Addrs []Addr `json:"addrs,omitempty"`
 	// RecvTimeoutMs>0: the target is configured with meta receive_timeout; the scripted target then sends a heartbeat
 	// (a leaf outside every view) every tenth of it on every stream, except while a "silence" break lasts.
 	RecvTimeoutMs int `json:"recv_timeout_ms,omitempty"`
@@ -131,6 +149,9 @@ type Scenario struct {
 	// NoMeta: the collector runs without -metadata_update_period (its default: no periodic metadata), so a target
 	// that says nothing means a subscriber's stream that carries nothing. Otherwise the period is 200 ms.
 	NoMeta bool `json:"no_meta,omitempty"`
+	// DialTimeoutMs: the collector's -dial_timeout (0: 10 s). An address that does not answer costs the collector one
+	// such timeout per attempt; that the live address is reached nevertheless is the collector's business.
+	DialTimeoutMs int `json:"dial_timeout_ms,omitempty"`
 }
 
 // Element names and key values: mostly plain, some containing '/' (interface names, prefixes; a leading and a
